@@ -400,6 +400,8 @@ impl Fb<'_, '_> {
             if self.depth < 2 && self.locals.len() - self.reserved.len() >= 2 { 2 } else { 0 },
             if self.o.spills && !self.spill_slots.is_empty() { 1 } else { 0 },
             if self.o.early_return && !self.is_main && self.depth >= 1 && self.depth < 3 && self.in_loop == 0 { 1 } else { 0 },
+            if self.o.spills && !self.spill_slots.is_empty() { 1 } else { 0 }, // 8 byte / half-word local
+            if self.depth < 2 && self.locals.len() - self.reserved.len() >= 2 { 2 } else { 0 }, // 9 while loop (jump to the test)
         ];
         match self.ch.weighted(&w) {
             1 => self.ecall_stmt(),
@@ -461,6 +463,58 @@ impl Fb<'_, '_> {
                 self.cond_branch(&skip);
                 self.finish(true);
                 self.emit(Line::Label(skip));
+            }
+            8 => {
+                // a byte or half-word local inside a spare frame slot
+                let slot = *self.ch.pick(&self.spill_slots.clone());
+                let x = self.any_local();
+                let t = self.temps[0];
+                let l = self.local();
+                if self.ch.chance(1, 2) {
+                    let b = self.ch.int_in(0, 3);
+                    let a = self.emit(ins("sb", vec![r(x), m(slot + b, SP)]));
+                    self.meta.frame_access.push(a);
+                    let ld = self.ch.pick_str(&["lbu", "lb"]);
+                    let c = self.emit(ins(ld, vec![r(t), m(slot + b, SP)]));
+                    self.meta.frame_access.push(c);
+                } else {
+                    let b = 2 * self.ch.int_in(0, 1);
+                    let a = self.emit(ins("sh", vec![r(x), m(slot + b, SP)]));
+                    self.meta.frame_access.push(a);
+                    let ld = self.ch.pick_str(&["lhu", "lh"]);
+                    let c = self.emit(ins(ld, vec![r(t), m(slot + b, SP)]));
+                    self.meta.frame_access.push(c);
+                }
+                self.emit(ins("add", vec![r(l), r(l), r(t)]));
+            }
+            9 => {
+                // while loop in the usual compiled shape: jump to the test at the bottom
+                let cnt = self.local();
+                self.reserved.push(cnt);
+                self.info.n_loops += 1;
+                let body = self.fresh("body");
+                let test = self.fresh("test");
+                let other = self.local();
+                self.emit(ins("add", vec![r(other), r(other), r(cnt)]));
+                let n = self.ch.int_in(0, 3);
+                self.emit(ins("li", vec![r(cnt), i(n)]));
+                self.emit(ins("j", vec![Opd::L(test.clone())]));
+                self.emit(Line::Label(body.clone()));
+                self.depth += 1;
+                self.in_loop += 1;
+                for _ in 0..1 + self.ch.below(3) {
+                    self.stmt();
+                }
+                self.in_loop -= 1;
+                self.depth -= 1;
+                self.emit(ins("addi", vec![r(cnt), r(cnt), i(-1)]));
+                self.emit(Line::Label(test));
+                if self.ch.chance(1, 2) {
+                    self.emit(ins("bgtz", vec![r(cnt), Opd::L(body)]));
+                } else {
+                    self.emit(ins("blt", vec![r(ZERO), r(cnt), Opd::L(body)]));
+                }
+                self.reserved.pop();
             }
             _ => self.update(),
         }
